@@ -217,6 +217,17 @@ example : (ClientVerb.hardStop.classifyFor false true) = .workerBad ∧
 theorem C09_one_final_answer_counterexample_pipelined (v1 v2 : Verb) :
     sessionPick [v1, v2] = some v2 := rfl
 
+/-- open (new): ReloadConfiguration of a path that cannot be loaded runs
+    `unwrap_or_else(|_| panic!(…))` in the handler — the main process dies, the
+    request (and every other client's pending request) is never answered. As a
+    verb it is not answered (`reload-bad-path-crashes-main`; the driver ends the
+    main process there while `Consts.hubReloadBadPathPanics` holds). -/
+theorem C09_one_final_answer_counterexample_crash :
+    ClientVerb.reloadBad.crashesMain = true ∧ (ClientVerb.reloadBad.classify true).answers = false ∧
+    finalsOf 0 (run (Hub.init true true true 10 1)
+      [.request 0 (ClientVerb.reloadBad.classify true), .advance 1000, .tick]).log = 0 := by
+  decide
+
 -- ============================================================ termination ==
 
 /-- **C09 (no task outlives its deadline).** For every event sequence: after a
